@@ -162,7 +162,7 @@ def run_tlc(module, cfg, wd, env=None, workers=1, timeout=1800, simulate=None,
     """Run TLC; returns dict(out, rc, generated, distinct, ok, error)."""
     md = f"{wd}/md-{module}-{int(time.time()*1000)%100000000}"
     e = dict(os.environ)
-    jto = "-Xss1g"
+    jto = f"-Xss1g -Djava.io.tmpdir={wd}"
     if depth_first:
         jto += " -Dtlc2.tool.queue.IStateQueue=StateDeque"
     if xmx:
